@@ -316,3 +316,19 @@ check(
     "DESIGN.md section 3 C14",
     "unitlab",
 )
+
+ENGINES[-1 if ENGINES[-1]["name"] == "gridlab" else 2]["serves_properties"].append("C16")
+check(
+    "C16",
+    "exploration",
+    "Derived descriptor pairs: the mirror image of Hypothesis-generated equilibria in the midplane (blob centres, wall, "
+    "lower/upper options exchanged) must give the reflected grid region by region with the y order reversed (positions, "
+    "psixy, hy, |Bp|, B, metric magnitudes, ixseps exchanged for disconnected double nulls); reverse_current / reverse_Bt "
+    "on the original arrays must be bit-identical to grids from arrays negated by the caller and relate to the unreversed "
+    "grid by the documented sign changes with unchanged positions.",
+    "Position tolerance for mirror pairs 20 x (10 refine_atol + 4e-8 + (L/Nfine)^2) since contours are traversed in opposite "
+    "directions; reverse_* identities are exact.",
+    "metamorphic PBT (mirror / sign-reversal relations between generated grids)",
+    "DESIGN.md section 3 C16",
+    "gridlab",
+)
